@@ -88,7 +88,23 @@ def t_angle_provider(d):
     return files, conf
 
 
-TEMPLATES = {"angle_provider": t_angle_provider, "provider": t_provider, "compiled_excluded": t_compiled_excluded, "forced_excluded": t_forced_excluded}
+def t_outside_twice(d):
+    """an unguarded header OUTSIDE the root directory (a system header found through -I) included twice: the second
+    inclusion sees the state the first one left and must be processed again"""
+    inc = "#include <bump.h>" if d[1] else '#include "../../sys/bump.h"'
+    files = {
+        "/r/src/main.c": [inc, "#ifdef LEVEL_2", "@", "#endif", inc, "#ifdef LEVEL_2", "@", "#else", "@", "#endif",
+                          "#undef MODE", "#define MODE 2", "#include <mode.h>", "#if MODE_SEEN == 2", "@", "#endif"],
+        "/sys/bump.h": ["#ifndef LEVEL_1", "#define LEVEL_1", "#else", "#define LEVEL_2", "#endif", "@",
+                        "#define MODE 1", "#include <mode.h>"],
+        "/sys/mode.h": ["#undef MODE_SEEN", "#if MODE == 2", "#define MODE_SEEN 2", "#else", "#define MODE_SEEN 1", "#endif",
+                        "#ifdef X", "@", "#endif"],
+    }
+    conf = {"p": [scen.entry("/r/src/main.c", ["X"] if d[0] else [], ["/sys"])]}
+    return files, conf
+
+
+TEMPLATES = {"outside_twice": t_outside_twice, "angle_provider": t_angle_provider, "provider": t_provider, "compiled_excluded": t_compiled_excluded, "forced_excluded": t_forced_excluded}
 
 
 def _setmap_from(attr, counted, members, plats):
@@ -166,5 +182,5 @@ def obligations(tier, known):
 CLAIM = ("For every subset of excluded files (including compiled files, providers of macros, forced includes and a header outside the root) "
          "and every -D choice in 4 scenarios, per-line attribution is unchanged and equals the reference preprocessor, and the platform-set "
          "table loses exactly the excluded files' lines - exhausted by CrossHair.")
-LEVEL_NOTE = ("Trusted: CrossHair/z3 for the enumeration, vp/memfs.py, vp/refs/ref_cpp.py. Bounded: 4 templates, <= 5 files, 2 platforms. "
+LEVEL_NOTE = ("Trusted: CrossHair/z3 for the enumeration, vp/memfs.py, vp/refs/ref_cpp.py. Bounded: 5 templates, <= 5 files, 2 platforms. "
               "Pattern matching and the CLI's -x handling are outside.")
